@@ -812,7 +812,10 @@ func (f *FeaturesByID) fillRelationsFromPoint(fb *featureBlock, id uint64, relat
 		var p FullPoint
 		// TODO: don't need to unmarshal everything
 		p.Unmarshal(&fb.Namespaces, t.Data)
-		for _, r := range p.Relations {
+		for i, r := range p.Relations {
+			if slices.Contains(p.Relations[:i], r) {
+				continue // A relation can list the same point more than once
+			}
 			for _, rm := range f.features[b6.FeatureTypeRelation] {
 				if _, ns := r.TypeAndNamespace.Split(); ns == rm.Namespaces[b6.FeatureTypeRelation] {
 					relations = append(relations, f.newRelation(rm, r.Value))
